@@ -8,6 +8,7 @@ import (
 	"reflect"
 	"regexp"
 	"sort"
+	"strings"
 	"time"
 
 	"github.com/uhppoted/uhppote-core/messages"
@@ -212,6 +213,22 @@ func runC05(o Opts) error {
 			}
 			c05msg(s, r, n, msgTypes[n], z, per)
 		}
+		// every date-bearing message decoded with its dates on the days this zone's offset changes (2015..2024)
+		if zi > 0 {
+			prevOff, nDays := 0, 0
+			for day := time.Date(2015, 1, 1, 12, 0, 0, 0, time.UTC); day.Year() < 2025 && nDays < 8; day = day.AddDate(0, 0, 1) {
+				_, off := day.In(loc).Zone()
+				if off != prevOff && !(day.Year() == 2015 && day.YearDay() == 1) {
+					nDays++
+					for _, n := range names {
+						if hasTime(msgTypes[n]) {
+							c05onDay(s, r, n, msgTypes[n], z, day.Year(), int(day.Month()), day.Day())
+						}
+					}
+				}
+				prevOff = off
+			}
+		}
 		if zi == 0 {
 			// dispatchers: all 256 function codes x valid/invalid protocol id; all lengths 0..128
 			for code := 0; code < 256; code++ {
@@ -300,4 +317,39 @@ func c05replay(s *Sink, path string) error {
 		c05msg(s, r, rp.Case.Type, msgTypes[rp.Case.Type], rp.Case.TZ, 40)
 	}
 	return s.Close()
+}
+
+// a valid encoding of the message with the bytes of every date field replaced by the BCD of the given day (date-times at
+// noon), decoded under the current zone
+func c05onDay(s *Sink, r *Rand, name string, t reflect.Type, zone string, y, m, d int) {
+	fs := layoutOfType(t)
+	sv := reflect.New(t).Elem()
+	for try := 0; try < 5; try++ {
+		fillValues(r, sv, fs, 0)
+		if existsLocally(sv, fs) {
+			break
+		}
+	}
+	b, ocl, _ := safeMarshal(sv.Interface())
+	if ocl != "ok" {
+		return
+	}
+	bcd := func(v int) byte { return byte(v/10<<4 | v%10) }
+	for _, l := range leaves(fs) {
+		mm := reOffset.FindStringSubmatch(l.F.Tag)
+		if mm == nil {
+			continue
+		}
+		var off int
+		fmt.Sscanf(mm[1], "%d", &off)
+		switch strings.TrimPrefix(l.F.Text, "*") {
+		case "types.Date":
+			copy(b[off:], []byte{bcd(y / 100), bcd(y % 100), bcd(m), bcd(d)})
+		case "types.SystemDate":
+			copy(b[off:], []byte{bcd(y % 100), bcd(m), bcd(d)})
+		case "types.DateTime":
+			copy(b[off:], []byte{bcd(y / 100), bcd(y % 100), bcd(m), bcd(d), 0x12, 0x00, 0x00})
+		}
+	}
+	c05unmarshal(s, name, t, fs, b, zone, "msg/dates-on-offset-change-day")
 }
